@@ -12,6 +12,7 @@ import copy
 import itertools
 import json
 import os
+import re
 import struct
 import subprocess
 
@@ -45,8 +46,23 @@ def bs(l):
 
 
 def fb(x):
-    """IEEE-754 bit pattern (signed 64-bit) of a coordinate: the Coq side compares vertex rows bit for bit"""
-    return struct.unpack("<q", struct.pack("<d", float(x)))[0]
+    """injective code of a float64 value (same function as impl/c18_impl.py:fbits): multiples of 1/16 below 2**40
+    (except -0.0) -> 2*(16*x); everything else -> 4*(IEEE-754 bit pattern, signed 64-bit) + 3.  The Coq side thereby
+    compares vertex rows bit for bit while most numerals stay small."""
+    x = float(x)
+    bits = struct.unpack("<q", struct.pack("<d", x))[0]
+    if x == x and abs(x) < 2.0 ** 40 and bits != -(2 ** 63):
+        k = x * 16.0
+        if k == int(k):
+            return 2 * int(k)
+    return 4 * bits + 3
+
+
+def unfb(c):
+    c = int(c)
+    if c % 2 == 0:
+        return (c // 2) / 16.0
+    return struct.unpack("<d", struct.pack("<q", (c - 3) // 4))[0]
 
 
 def vt(r):
@@ -173,7 +189,7 @@ SPECIAL = [0.0, -0.0, 5e-324, -5e-324, 2.2250738585072014e-308, 1e-300, 1e308, -
 def rand_verts(rng, n):
     """vertex rows of one of several flavours: Python ints (-> integer-dtype arrays; diameter 0 included),
     floats incl. signed zeros / denormals / huge values, integer-valued floats, mixed"""
-    flavour = rng.choice(["int", "int", "int0", "float", "special", "mixed"])
+    flavour = rng.choice(["int", "int", "int", "int0", "int0", "float", "float", "float", "mixed", "special"])
     rows = []
     for _ in range(n):
         if flavour == "int":
@@ -185,7 +201,8 @@ def rand_verts(rng, n):
         elif flavour == "special":
             r = [rng.choice(SPECIAL) for _ in range(4)]
         else:
-            r = [rng.choice([rng.randrange(-9, 10), float(rng.randrange(-9, 10)), rng.choice(SPECIAL)]) for _ in range(4)]
+            r = [rng.choice([rng.randrange(-9, 10), float(rng.randrange(-9, 10)), rng.randrange(-40, 41) / 4.0, rng.choice(SPECIAL)])
+                 for _ in range(4)]
         rows.append(r)
     return rows
 
@@ -517,6 +534,18 @@ def doc_term(c):
                                            "; ".join(morph_term(m) for m in c["morphs"]))
 
 
+def view_row(mterm, n, segs, conv, plain):
+    """one row of a view cases file; the conversion is written out only when it is not exactly the segment view"""
+    view = "[%s]" % "; ".join("None" if x is None else "(Some %s)" % seg_term(x) for x in segs)
+    if conv != "IndexError" and conv == segs and all(x is not None for x in segs):
+        cv = "None"
+    elif conv == "IndexError":
+        cv = "(Some None)"
+    else:
+        cv = "(Some (Some [%s]))" % "; ".join(seg_term(x) for x in conv)
+    return "(%s, %s, %s, %s, %s)" % (mterm, z(n), view, cv, "true" if plain else "false")
+
+
 def loaded_plain(m):
     n = len(m["conn"])
     return (n >= 1 and not any(m["mask"]) and len(m["mask"]) == n and len(m["verts"]) == n and is_tree(m["conn"])
@@ -537,10 +566,7 @@ def loaded_view_rows(ck, o, origin, rows, checks):
             continue
         ov = {"r": "ok", "len": m["len"], "segs": m["view"], "conv": m["conv"]}
         mt = "(Build_amorph vtx None %s %s %s)" % (vts_raw(m["verts"]), zs(m["conn"]), bs(m["mask"]))
-        view = "[%s]" % "; ".join("None" if x is None else "(Some %s)" % seg_term(x) for x in m["view"])
-        conv = "None" if m["conv"] == "IndexError" else "(Some [%s])" % "; ".join(seg_term(x) for x in m["conv"])
-        rows.append((c, ov, "(%s, %s, %s)" % (mt, z(m["len"]), view), "(%s, %s)" % (mt, conv),
-                     "(%s, %s)" % (mt, "true" if c["plain"] else "false")))
+        rows.append((c, ov, view_row(mt, m["len"], m["view"], m["conv"], c["plain"])))
         checks.append((c, ov))
 
 
@@ -659,7 +685,7 @@ def check_view(ck, c, o):
         """first segment whose id / end points differ, decoded from the bit patterns"""
         if not isinstance(segs, list):
             return segs
-        dec = lambda r: [repr(struct.unpack("<d", struct.pack("<q", int(b)))[0]) for b in r]  # noqa: E731
+        dec = lambda r: [repr(unfb(b)) for b in r]  # noqa: E731
         for k, e in enumerate(exp):
             g = segs[k] if k < len(segs) else None
             if g is None or g[:3] != e[:3]:
@@ -669,11 +695,11 @@ def check_view(ck, c, o):
         return None if len(segs) == len(exp) else {"expected_segments": len(exp), "observed_segments": len(segs)}
 
     if c.get("bits"):
-        inp["note"] = "morphology returned by ArrayMorphLoader.load (%s); vertex rows are IEEE-754 bit patterns" % c.get("origin")
+        inp["note"] = "morphology returned by ArrayMorphLoader.load (%s); vertex rows are codes of the float64 values, see fb()" % c.get("origin")
     if o.get("r") != "ok" or o["len"] != len(exp) or [s[:3] if s else None for s in o["segs"]] != [s[:3] for s in exp]:
         ck.witness(K_VIEW, "segment view is not one segment per non-root vertex with end points equal (bit for bit) to the "
                            "vertex row and the parent vertex row",
-                   input=inp, expected={"first_difference": first_diff(o.get("segs")), "segments_as_bit_patterns": exp},
+                   input=inp, expected={"first_difference": first_diff(o.get("segs")), "segments_as_codes": exp},
                    observed=o)
         ok = False
     if o.get("r") == "ok" and (o["conv"] == "IndexError" or [s[:3] for s in o["conv"]] != [s[:3] for s in exp]
@@ -708,7 +734,18 @@ def chunks(l, k):
 
 def eval_cases(ck, name, defs, evals):
     """compile one cases file; returns list of index lists (one per Eval) or None when it did not compile"""
-    text = HDR + defs + "".join("Eval vm_compute in (%s).\n" % e for e in evals)
+    # big numerals (codes of non-dyadic / huge / signed-zero floats) are few distinct values but many occurrences, and
+    # Coq parses a 20-digit numeral in milliseconds: name each distinct one once
+    names = {}
+
+    def name_of(m):
+        lit = m.group(0)
+        if lit not in names:
+            names[lit] = "bigz_%d" % len(names)
+        return names[lit]
+    defs = re.sub(r"\(-\d{10,}\)|\b\d{10,}\b", name_of, defs)
+    table = "".join("Definition %s : Z := %s.\n" % (nm, lit) for lit, nm in names.items())
+    text = HDR + table + defs + "".join("Eval vm_compute in (%s).\n" % e for e in evals)
     ok, res, out = ck.coq_eval(name, text)
     ck.oblige(name + ":evaluates", ok and len(res) == len(evals), out[-1500:], kind="correspondence")
     if not ok or len(res) != len(evals):
@@ -796,10 +833,7 @@ def run(ck):
         if o["r"] != "ok":
             ck.disagree("segments_view", strip(c), "a morphology", o["r"], note="constructor refused a generated input")
             continue
-        view = "[%s]" % "; ".join("None" if s is None else "(Some %s)" % seg_term(s) for s in o["segs"])
-        conv = "None" if o["conv"] == "IndexError" else "(Some [%s])" % "; ".join(seg_term(s) for s in o["conv"])
-        rows.append((c, o, "(%s, %s, %s)" % (morph_term(c), z(o["len"]), view), "(%s, %s)" % (morph_term(c), conv),
-                     "(%s, %s)" % (morph_term(c), "true" if c["plain"] else "false")))
+        rows.append((c, o, view_row(morph_term(c), o["len"], o["segs"], o["conv"], c["plain"])))
     # the same clause on every morphology that came back from ArrayMorphLoader.load (documents, single, histories)
     loaded_checks = []
     for i, o in enumerate(out["docs"]):
@@ -810,16 +844,20 @@ def run(ck):
         for k, o in enumerate(h["steps"]):
             loaded_view_rows(ck, o, "history %d step %d" % (i, k), rows, loaded_checks)
     ck.tally("view:loaded-from-file", len(loaded_checks))
-    for fi, part in enumerate(chunks(rows, 300)):
+    view_hdr = (
+        "Definition vrow : Type := (amorph vtx * Z * list (option (segment vtx)) * option (option (list (segment vtx))) * bool)%type.\n"
+        "(* the conversion column: None = the implementation's to_neuroml_morphology() returned exactly the segments of its\n"
+        "   segment view (all present); Some x = what it returned otherwise (None = IndexError) *)\n"
+        "Definition conv_of (x : vrow) : amorph vtx * option (list (segment vtx)) :=\n"
+        "  match x with (m, _, v, Some cv, _) => (m, cv) | (m, _, v, None, _) => (m, sequence v) end.\n"
+        "Definition v_ok (x : vrow) := match x with (m, n, v, _, _) => view_case_ok (m, n, v) end.\n"
+        "Definition c_ok (x : vrow) := conv_case_ok (to_neuroml_morphology vtx) (conv_of x).\n"
+        "Definition c_orig_ok (x : vrow) := conv_case_ok (to_neuroml_morphology_orig vtx) (conv_of x).\n"
+        "Definition d_ok (x : vrow) := match x with (m, _, _, _, f) => view_dom_case_ok (m, f) end.\n")
+    for fi, part in enumerate(chunks(rows, 150)):
         jobs.append(("view", part, "Cases_C18_view_%d.v" % fi,
-                     "Definition vcases : list (amorph vtx * Z * list (option (segment vtx))) :=\n [%s].\n"
-                     "Definition ccases : list (amorph vtx * option (list (segment vtx))) :=\n [%s].\n"
-                     "Definition dcases : list (amorph vtx * bool) :=\n [%s].\n"
-                     % (";\n  ".join(x[2] for x in part), ";\n  ".join(x[3] for x in part), ";\n  ".join(x[4] for x in part)),
-                     ["mismatches view_case_ok vcases",
-                      "mismatches (conv_case_ok (to_neuroml_morphology vtx)) ccases",
-                      "mismatches (conv_case_ok (to_neuroml_morphology_orig vtx)) ccases",
-                      "mismatches view_dom_case_ok dcases"]))
+                     view_hdr + "Definition rows : list vrow :=\n [%s].\n" % ";\n  ".join(x[2] for x in part),
+                     ["mismatches v_ok rows", "mismatches c_ok rows", "mismatches c_orig_ok rows", "mismatches d_ok rows"]))
     # ---- documents and single morphologies
     rows = []
     for c, o in zip(dc, out["docs"]):
@@ -900,7 +938,7 @@ def run(ck):
                      ["mismatches frame_case_ok cases"]))
 
     # ---- Coq evaluates the model (and the theorems' domain checks) on every case; files are compiled in parallel
-    with concurrent.futures.ThreadPoolExecutor(max_workers=4) as ex:
+    with concurrent.futures.ThreadPoolExecutor(max_workers=6) as ex:
         results = list(ex.map(lambda j: eval_cases(ck, j[2], j[3], j[4]), jobs))
     dom_bad = 0
     for (kind, part, name, _, _), res in zip(jobs, results):
